@@ -6,7 +6,7 @@ python data owned by one path.
 """
 import ast, z3, copy, hashlib
 from .ty import *
-from .registry import SPEC, LEMMAS, CLASSES, CONTRACTS, INLINE, CONSTS, Contract, GHOSTS, EFFECTS
+from .registry import SPEC, LEMMAS, CLASSES, CONTRACTS, INLINE, CONSTS, Contract, GHOSTS, EFFECTS, MONOTONE
 from . import registry
 
 
@@ -213,6 +213,7 @@ class Engine:
         self.order = []
         self.dropped = []      # statements dropped / abstracted, reported in evidence
         self.trusted_used = set()
+        self.auto_inlined = set()
         self.lemmas_used = set()
         self.spec_role = "prove"     # "assume" while a contract's clauses are being assumed at a call site
         self.budget_ms = budget_ms
@@ -1082,9 +1083,15 @@ class Engine:
             self.setcell(fr.yielded, self.havoc_cell("result", self.cell(fr.yielded)))
         for g in sorted(self.ghost_touched(body)):
             if g in self.ghostv:
-                self.ghostv[g] = self.fresh("ghost_" + g, self.ghostv[g].ty)
+                self.havoc_ghost(g)
 
-    def ghost_touched(self, body):
+    def havoc_ghost(self, g):
+        before = self.ghostv[g]
+        self.ghostv[g] = self.fresh("ghost_" + g, before.ty)
+        if g in MONOTONE:
+            self.assume(self.ghostv[g].t >= before.t)
+
+    def ghost_touched(self, body, _seen=frozenset()):
         """ghost variables a loop body may change: through file operations, effect handlers, or callees whose
         contract lists them under modifies_ghost (matched by method name: an over-approximation)"""
         if not self.ghostv:
@@ -1096,6 +1103,10 @@ class Engine:
                 by_name.setdefault(k.split(":")[1].split(".")[-1].split("#")[0], set()).update(c.modifies_ghost)
         for k in EFFECTS:
             by_name.setdefault(k.split(":")[1].split(".")[-1], set()).update(GHOSTS)
+        by_name.setdefault("urandom", set()).add("rng_n")
+        inl = {}
+        for k in INLINE:
+            inl.setdefault(k.split(":")[1].split(".")[-1], []).append(k)
         out = set()
         for st in body:
             for n in ast.walk(st):
@@ -1103,6 +1114,12 @@ class Engine:
                 if isinstance(n, ast.Call):
                     names.append(n.func.attr if isinstance(n.func, ast.Attribute) else (
                         n.func.id if isinstance(n.func, ast.Name) else None))
+                    for k in inl.get(names[-1], ()):
+                        if k not in _seen:
+                            try:
+                                out.update(self.ghost_touched(self.repo.find(k)[0].body, _seen | {k}))
+                            except Exception:
+                                out.update(GHOSTS)
                     if names[-1] in ("iter", "list", "tuple"):
                         names.append("__iter__")
                 elif isinstance(n, ast.Subscript):
@@ -1488,7 +1505,13 @@ class Engine:
         if isinstance(obj, Ref) and self.cell(obj)[0] == "obj":
             kind, cd, fields = self.cell(obj)
             if self.is_borrowed(obj):
-                self.frame_violation(obj, node, "attribute %s" % attr)
+                from .builtins_ import declared_fields, infer_attr_type
+                if attr not in declared_fields(cd) and infer_attr_type(self, cd.key, attr) is not None:
+                    # private state of simple immutable type that no contract mentions: reads of it are arbitrary
+                    # values, so writing it breaks nothing a caller may rely on -- not a frame violation
+                    self.dropped.append("undeclared field %s.%s written (private state, read back as arbitrary)" % (cd.name, attr))
+                else:
+                    self.frame_violation(obj, node, "attribute %s" % attr)
             nf = dict(fields)
             nf[attr] = v
             self.setcell(obj, ("obj", cd, nf))
